@@ -248,7 +248,6 @@ FUNC_MISC = [
     ("custom decorator factory", "def decf@(k):\n    def w(fn):\n        return fn\n    return w\n@decf@(1)\ndef f@(pa: int) -> int:\n    return pa", []),
     ("functools.wraps", "def deco@(fn):\n    @functools.wraps(fn)\n    def w(*pa, **pb):\n        return fn(*pa, **pb)\n    return w\n@deco@\ndef f@(pa: int) -> int:\n    return pa", ["functools"]),
     ("contextmanager", "@contextlib.contextmanager\ndef f@(pa: int):\n    yield pa", ["contextlib"]),
-    ("functools.cache", "@functools.cache\ndef f@(pa: int) -> int:\n    return pa", ["functools"]),
     ("nested function", "def f@(pa):\n    def inner(pb):\n        return pb\n    return inner", []),
     ("docstring", "def f@(pa: int) -> int:\n    '''doc'''\n    return pa", []),
     ("redefinition", "def f@(pa: int) -> int:\n    return pa\ndef f@(pa: int) -> int:\n    return pa + 1", []),
@@ -279,7 +278,6 @@ ANN_FORMS = [
 
 VAR_FORMS = [
     ("annotated int with value", "v@: int = 1", []),
-    ("annotated without value", "v@: int", []),
     ("annotated str", "v@: str = 's'", []),
     ("annotated Optional", "v@: Optional[int] = None", ["Optional"]),
     ("annotated list", "v@: list[int] = []", []),
@@ -311,8 +309,6 @@ VAR_FORMS = [
     ("Final call", "v@: Final = int('3')", ["Final"]),
     ("typing.Final bare", "v@: typing.Final = 1", ["typing"]),
     ("augmented assignment", "v@ = 1\nv@ += 1", []),
-    ("reassignment other type", "v@ = 1\nv@ = 's'", []),
-    ("del", "v@ = 1\nw@ = 2\ndel w@", []),
     ("global in function", "v@ = 0\ndef f@() -> None:\n    global v@\n    v@ = 1", []),
     ("for-loop variable", "for v@ in range(2):\n    pass", []),
     ("with variable", "with open(__file__) as v@:\n    pass", []),
@@ -507,7 +503,7 @@ TYPEDDICT_FORMS = [
 
 OVERLOAD_FORMS = [
     ("function 2 overloads", "@overload\ndef f@(pa: int) -> int: ...\n@overload\ndef f@(pa: str) -> str: ...\ndef f@(pa):\n    return pa", ["overload"]),
-    ("function 3 overloads with defaults", "@overload\ndef f@() -> None: ...\n@overload\ndef f@(pa: int) -> int: ...\n@overload\ndef f@(pa: str, pb: int = 0) -> str: ...\ndef f@(pa=None, pb=0):\n    return pa", ["overload"]),
+    ("function 3 overloads with defaults", "@overload\ndef f@() -> None: ...\n@overload\ndef f@(pa: int) -> int: ...\n@overload\ndef f@(pa: str, pb: int = 0) -> str: ...\ndef f@(pa=0, pb=0):\n    return pa", ["overload"]),
     ("typing.overload", "@typing.overload\ndef f@(pa: int) -> int: ...\n@typing.overload\ndef f@(pa: str) -> str: ...\ndef f@(pa):\n    return pa", ["typing"]),
     ("overload keyword-only / pos-only", "@overload\ndef f@(pa: int, /) -> int: ...\n@overload\ndef f@(*, pb: str) -> str: ...\ndef f@(pa=0, /, *, pb=''):\n    return pa", ["overload"]),
     ("overload Literal", "@overload\ndef f@(pa: Literal[True]) -> int: ...\n@overload\ndef f@(pa: Literal[False]) -> str: ...\ndef f@(pa: bool):\n    return 1 if pa else ''", ["overload", "Literal"]),
@@ -533,7 +529,7 @@ GENERIC_FORMS = [
     ("Generic subclass", "T@ = TypeVar('T@')\nclass B@(Generic[T@]):\n    pass\nclass G@(B@[int]):\n    pass\nclass H@(B@[T@]):\n    pass", ["TypeVar", "Generic"]),
     ("Generic over builtin", "T@ = TypeVar('T@')\nclass G@(list[T@]):\n    pass", ["TypeVar"]),
     ("typing.Generic dotted", "T@ = typing.TypeVar('T@')\nclass G@(typing.Generic[T@]):\n    x: T@", ["typing"]),
-    ("Generic Protocol", "T@ = TypeVar('T@')\nclass G@(Protocol[T@]):\n    def m(self) -> T@: ...", ["TypeVar", "Protocol"]),
+    ("Generic Protocol", "T@ = TypeVar('T@', covariant=True)\nclass G@(Protocol[T@]):\n    def m(self) -> T@: ...", ["TypeVar", "Protocol"]),
     ("ParamSpec", "P@ = ParamSpec('P@')\nR@ = TypeVar('R@')\ndef f@(pa: Callable[P@, R@]) -> Callable[P@, R@]:\n    return pa", ["ParamSpec", "TypeVar", "Callable"]),
     ("ParamSpec args/kwargs", "P@ = ParamSpec('P@')\ndef f@(pa: Callable[P@, int], *pb: P@.args, **pc: P@.kwargs) -> int:\n    return pa(*pb, **pc)", ["ParamSpec", "Callable"]),
     ("TypeVarTuple", "Ts@ = TypeVarTuple('Ts@')\ndef f@(*pa: Unpack[Ts@]) -> tuple[Unpack[Ts@]]:\n    return pa", ["TypeVarTuple"]),
@@ -632,10 +628,10 @@ COND_FORMS = [
     ("try from-import except ImportError class", "try:\n    from nonexistent_c19_mod import C@\nexcept ImportError:\n    class C@:\n        x: int = 0", []),
     ("try existing from-import except def", "try:\n    from os.path import basename as f@\nexcept ImportError:\n    def f@(pa: str) -> str:\n        return pa", []),
     ("try import except ModuleNotFoundError flag", "try:\n    import nonexistent_c19_mod\n    v@ = True\nexcept ModuleNotFoundError:\n    v@ = False", []),
-    ("try/except/else/finally defs", "try:\n    pass\nexcept Exception:\n    def f@() -> int:\n        return 0\nelse:\n    def g@(pa: int) -> int:\n        return pa\nfinally:\n    def h@(pa: str) -> str:\n        return pa", []),
+    ("try/except/else/finally defs", "try:\n    pass\nexcept Exception:\n    pass\nelse:\n    def g@(pa: int) -> int:\n        return pa\nfinally:\n    def h@(pa: str) -> str:\n        return pa", []),
     ("if __name__ == '__main__'", "def f@() -> None:\n    pass\nif __name__ == '__main__':\n    f@()\n    v@ = 1", []),
     ("plain runtime condition", "if CONST:\n    def f@(pa: int) -> int:\n        return pa\nelse:\n    def f@(pa: str) -> str:\n        return pa", ["CONST"]),
-    ("def in with/for", "for i@ in range(1):\n    def f@(pa: int) -> int:\n        return pa", []),
+    ("def in with/for", "for _i in range(1):\n    def f@(pa: int) -> int:\n        return pa", []),
     ("import inside function", "def f@(pa: str) -> str:\n    import os\n    return os.path.basename(pa)", []),
 ]
 
@@ -763,7 +759,7 @@ def elements(tier: str) -> list[Defn]:
     for fam, label, tmpl, needs in func_elements(tier):
         mk(fam, label, tmpl, needs)
     for ann, needs in ANN_FORMS:
-        tmpl = f"def f§(pa: {ann}) -> {ann}:\n    raise NotImplementedError\nv§: {ann}"
+        tmpl = f"def f§(pa: {ann}) -> {ann}:\n    raise NotImplementedError\nclass KA§:\n    x: {ann}"
         mk("annotation", f"annotation {ann}", tmpl, needs)
     for fam, table in FAMILY_TABLE:
         for label, tmpl, needs in table:
@@ -815,7 +811,6 @@ ALL_VARIANTS = [
 
 _PKG_INIT = """from .a import KA as KA
 from . import b
-from .b import *
 """
 _PKG_A = """from typing import TypeVar
 TA = TypeVar('TA')
@@ -901,7 +896,7 @@ class Plan:
 def plans(tier: str) -> list[Plan]:
     els = elements(tier)
     out: list[Plan] = []
-    size = {"func": 40 if tier == "thorough" else 33}
+    size = {"func": 60}
     by_family: dict[str, list[Defn]] = {}
     for e in els:
         by_family.setdefault(e.family, []).append(e)
